@@ -235,6 +235,83 @@ Theorem C11_prefix_all_column_search_without_indexes_refuted :
 Proof. exact CmiEvictProofs.allcol_without_indexes_refuted. Qed.
 Print Assumptions C11_prefix_all_column_search_without_indexes_refuted.
 
+(* ---- persistent-query bookkeeping at the open -> rotated hand-over ----
+   Model SigM.PqFlag (one tracked persistent query): every buffer flush of the open segment appends the block's match
+   bits and updates pqNonEmptyResults[pqid] (AppendWipToSegfile); at rotation a false flag deletes the segment's pqmr
+   file and queues the segment for the query's empty-segments list (checkAndRotateColFiles); the listener persists
+   the queued notes; the planner (applyFopAllRequests: group-by route, old record route) skips every rotated segment
+   on the persisted list.  Tie to the code: the pq streams of harness/cmd/c11/pq.go (queries asked on the fresh index
+   first; flush patterns of matching / non-matching blocks; rotation + one listener pass through the hook
+   VerifC11DrainPqsChan; the tracked queries asked through the filter, statistics and group-by routes), answers
+   judged by the oracle, answers and per-segment bookkeeping (pqmr file exists, on the list) replayed on the model
+   (cases_pq.v). *)
+From SigM Require PqFlag PqFlagCheck.
+From SigP Require PqFlagProofs.
+
+(* For ANY sequence of flushed blocks the flag of the open segment is "some flushed block has a match". *)
+Theorem C11_pq_flag_is_or_over_flushed_blocks :
+  forall (event : Type) (matches : event -> bool) (bs : list (list event)),
+  fold_left (PqFlag.flag_step event matches true) bs false = existsb (PqFlag.any_match event matches) bs.
+Proof. exact PqFlagProofs.flag_is_or. Qed.
+Print Assumptions C11_pq_flag_is_or_over_flushed_blocks.
+
+(* For EVERY sequence of flushes (any pattern of matching / non-matching blocks), rotations and listener passes, the
+   tracked query answered through the planner returns exactly the matching events of every block flushed so far, in
+   flush order: what the search of the open segment returned is what the search after the rotation returns. *)
+Theorem C11_pq_search_exact :
+  forall (event : Type) (matches : event -> bool) (ops : list (PqFlag.op event)),
+  PqFlag.search event matches (PqFlag.run event matches true ops)
+  = PqFlag.hits event matches (PqFlag.flushed event ops).
+Proof. exact PqFlagProofs.search_exact. Qed.
+Print Assumptions C11_pq_search_exact.
+
+(* A rotation or a listener pass inserted anywhere changes no answer. *)
+Theorem C11_pq_rotation_never_changes_an_answer :
+  forall (event : Type) (matches : event -> bool) (ops1 ops2 : list (PqFlag.op event)) (o : PqFlag.op event),
+  (o = PqFlag.Rotate event \/ o = PqFlag.Listen event) ->
+  PqFlag.search event matches (PqFlag.run event matches true (ops1 ++ o :: ops2))
+  = PqFlag.search event matches (PqFlag.run event matches true (ops1 ++ ops2)).
+Proof. exact PqFlagProofs.rotation_transparent. Qed.
+Print Assumptions C11_pq_rotation_never_changes_an_answer.
+
+(* The bookkeeping of every rotated segment is the truth about its blocks: the pqmr file is kept iff some block has a
+   match, the segment is queued for / on the empty-segments list iff none has. *)
+Theorem C11_pq_segment_bookkeeping_exact :
+  forall (event : Type) (matches : event -> bool) (ops : list (PqFlag.op event)) (r : PqFlag.rseg event),
+  In r (PqFlag.rot event (PqFlag.run event matches true ops)) ->
+  PqFlag.seg_books event r
+  = (existsb (PqFlag.any_match event matches) (PqFlag.rblocks event r),
+     negb (existsb (PqFlag.any_match event matches) (PqFlag.rblocks event r))).
+Proof. exact PqFlagProofs.books_exact. Qed.
+Print Assumptions C11_pq_segment_bookkeeping_exact.
+
+(* On the instance the case files are replayed on (event = id, query = ids it matches) the planner's answer is the
+   answer of the routes that do not consult the list. *)
+Theorem C11_pq_instance_exact :
+  forall (m : list N) (ops : list PqFlagCheck.pop),
+  PqFlagCheck.model_answer true true m ops = PqFlagCheck.model_answer true false m ops.
+Proof. exact PqFlagProofs.inst_search_exact. Qed.
+Print Assumptions C11_pq_instance_exact.
+
+(* A writer whose flag is the value of the block flushed LAST violates the property: blocks [1] (match), [2] (no
+   match), rotation, listener pass -> pqmr file gone, segment on the list, the planner loses event 1 (the code: [1]);
+   while the segment is open and before the listener pass the answer is complete; with the matching block last, or
+   one-block segments, both writers agree. *)
+Theorem C11_pq_last_block_flag_refuted :
+  let F := PqFlag.Flush N in let R := PqFlag.Rotate N in let L := PqFlag.Listen N in
+  let ans acc ops := PqFlag.search N (PqFlagCheck.qmatches [1%N]) (PqFlagCheck.prun acc [1%N] ops) in
+  let books acc ops := map (PqFlag.seg_books N) (PqFlag.rot N (PqFlagCheck.prun acc [1%N] ops)) in
+  ans false [F [1%N]; F [2%N]; R; L] = []
+  /\ ans true [F [1%N]; F [2%N]; R; L] = [1%N]
+  /\ books false [F [1%N]; F [2%N]; R; L] = [(false, true)]
+  /\ books true [F [1%N]; F [2%N]; R; L] = [(true, false)]
+  /\ ans false [F [1%N]; F [2%N]] = [1%N]
+  /\ ans false [F [1%N]; F [2%N]; R] = [1%N]
+  /\ ans false [F [2%N]; F [1%N]; R; L] = [1%N]
+  /\ ans false [F [1%N]; R; L; F [2%N]; R; L] = [1%N].
+Proof. exact PqFlagProofs.last_block_flag_refuted. Qed.
+Print Assumptions C11_pq_last_block_flag_refuted.
+
 (* ---- "no deadlocks": the lock discipline of the hand-over lists ----
    Every step of the model above is one critical section of a reader/writer lock in the code
    (globalMetadata.updateLock, UnrotatedInfoLock, ...).  Go's sync.RWMutex prefers writers: once a
